@@ -107,7 +107,7 @@ def collect(pid, tier, seed, d):
     unexplained += ev_n - len(ev_ok)
     mc_info.append({"spec": "TracePool (histories of a Close without Wait; conformance only, no verdict)", "histories": ev_n, "explained": len(ev_ok)})
     log("early-close histories explained by FlytPool (no verdict): %d of %d" % (len(ev_ok), ev_n))
-    violations, known_hits = [], {}
+    violations, known_hits, stalls = [], {}, 0
     if crash_violation:
         violations.append(crash_violation)
     races = glob.glob(racelog + ".*")
@@ -138,6 +138,13 @@ def collect(pid, tier, seed, d):
                 continue
             if scn_id not in again:
                 raise ToolFailure("history %d failed once but not when re-validated by a fresh TLC run" % scn_id)
+            # a history that rests on one of the harness's own watchdogs (a barrier or a Wait that did not come in time, goroutines
+            # still alive two seconds after Close) may be a scheduling stall of a loaded machine: it counts only if the same
+            # scenario fails again when re-executed - a real deadlock or leak does, a stall does not
+            watchdog = any(e["ev"] in ("stuck", "hang") or (e["ev"] == "leak" and e.get("n", 0) > 0) for e in scns[scn_id]["h"])
+            if watchdog and scn_id not in reproduced:
+                stalls += 1
+                continue
             c = scns[scn_id]["cfg"]
             sig = "%s:%s:W=%s" % (pid, "+".join(sorted(clauses)), "<=0" if c["W"] <= 0 else ">0")
             if sig in known:
@@ -156,7 +163,8 @@ def collect(pid, tier, seed, d):
         pass
     return dict(states=states, transitions=transitions, scenarios=summ.get("scenarios", 0), events=summ.get("events", 0),
                 hits={k: v for k, v in summ.items() if k not in ("scenarios", "events")}, violations=violations, known_hits=known_hits,
-                drifts=len(drifts) + unexplained, mc_info=mc_info, samples=samples, exported=len(scn_lines), modes=modes, count=count)
+                drifts=len(drifts) + unexplained, mc_info=mc_info, samples=samples, exported=len(scn_lines), modes=modes, count=count,
+                scheduling_stalls_discarded=stalls)
 
 
 def run(pid, tier, seed):
